@@ -200,6 +200,49 @@ pub mod parser {
 //@end
 }
 
+// ---- TRUSTED (A-STUB): tonic's Request / Response wrappers, the tracing span and the prost request structs of the
+// get / delete handlers; name parsers assumed here, proved in bundle B3
+pub struct Request<T> { pub m: T }
+impl<T> Request<T> { pub fn get_ref(&self) -> (r: &T) ensures *r == self.m { &self.m } }
+pub struct Response<T> { pub m: T }
+impl<T> Response<T> { pub fn new(m: T) -> (r: Self) ensures r.m == m { Response { m } } }
+pub struct ActivitySpan { pub x: u8 }
+impl ActivitySpan { pub fn start() -> Self { ActivitySpan { x: 0 } } }
+pub struct GetSubscriptionRequest { pub subscription: String }
+pub struct DeleteSubscriptionRequest { pub subscription: String }
+pub struct GetTopicRequest { pub topic: String }
+pub struct DeleteTopicRequest { pub topic: String }
+pub mod name_glue {
+    use super::*;
+    pub uninterp spec fn parsed_sub(s: Seq<char>) -> Option<SubscriptionName>;
+    pub uninterp spec fn parsed_topic(s: Seq<char>) -> Option<TopicName>;
+    /// what `Subscription::get_info` answers: the configuration stored at creation (SubscriptionActor, bundle B1 / B4)
+    pub uninterp spec fn stored_info(s: subscriptions::Subscription, i: subscriptions::SubscriptionInfo) -> bool;
+    /// a `delete()` call on the handle was answered OK (the actor's delete is under contract in bundle B1 / B4)
+    pub uninterp spec fn sub_deleted(s: subscriptions::Subscription) -> bool;
+    pub uninterp spec fn topic_deleted(t: subscriptions::Topic) -> bool;
+}
+pub use name_glue::{parsed_sub, parsed_topic, stored_info, sub_deleted, topic_deleted};
+pub enum GetInfoError { Closed }
+pub enum DeleteError { Closed }
+impl subscriptions::Subscription {
+    // TRUSTED (A-GLUE): handle methods forward to the subscription actor
+    #[verifier::external_body]
+    pub async fn get_info(&self) -> (r: Result<subscriptions::SubscriptionInfo, GetInfoError>)
+        ensures (match r { Ok(i) => stored_info(*self, i), Err(_) => true })
+    { unimplemented!() }
+    #[verifier::external_body]
+    pub async fn delete(&self) -> (r: Result<(), DeleteError>)
+        ensures r.is_ok() ==> sub_deleted(*self)
+    { unimplemented!() }
+}
+impl subscriptions::Topic {
+    #[verifier::external_body]
+    pub async fn delete(&self) -> (r: Result<(), DeleteError>)
+        ensures r.is_ok() ==> topic_deleted(*self)
+    { unimplemented!() }
+}
+
 // ======================================================================================
 // src/api/subscriber.rs: stored configuration -> Subscription resource (GetSubscription, ListSubscriptions, Create reply)
 pub mod subscriber {
@@ -227,6 +270,14 @@ pub mod subscriber {
     }
 
     use super::subscriptions::{GetSubscriptionError, SubscriptionManager};
+    pub mod parser {
+        use super::super::*;
+        #[verifier::external_body]
+        pub fn parse_subscription_name(raw_value: &str) -> (r: Result<SubscriptionName, Status>)
+            ensures (match parsed_sub(raw_value@) { Some(n) => r == Ok::<SubscriptionName, Status>(n), None => err_code(r) == Some(Code::InvalidArgument) })
+        { unimplemented!() }
+    }
+    pub struct SubscriberService { pub subscription_manager: Arc<SubscriptionManager> }
 //@fn src/api/subscriber.rs conflict tags=C10
 //@ ret r
 //@ ensures[C10] r.code == Code::FailedPrecondition
@@ -278,6 +329,31 @@ pub mod subscriber {
 //@ closure 4 ret m: AuthenticationMethod
 //@ closure 4 ensures (match m { AuthenticationMethod::OidcToken(o) => o.audience@ == $1.audience@ && o.service_account_email@ == $1.service_account_email@ })
 //@end
+
+    impl SubscriberService {
+//@fn src/api/subscriber.rs SubscriberService::get_subscription tags=C10 keep-paths=1
+//@ ret r
+//@ # C17 / C10: a name that does not parse is INVALID_ARGUMENT, an absent name NOT_FOUND
+//@ ensures[C17] parsed_sub(request.m.subscription@).is_none() ==> err_code(r) == Some(Code::InvalidArgument)
+//@ ensures[C10] (match parsed_sub(request.m.subscription@) { Some(n) => (self.subscription_manager.lookup(n) matches Err(GetSubscriptionError::DoesNotExist)) ==> err_code(r) == Some(Code::NotFound), None => true })
+//@ # C10: the answer is the resource of the subscription the name denotes: its name and the configuration it stores
+//@ ensures[C10] (match r { Ok(resp) => exists|s: Arc<crate::subscriptions::Subscription>, info: SubscriptionInfo| #[trigger] stored_info(*s, info) && self.subscription_manager.lookup(parsed_sub(request.m.subscription@).unwrap()) == Ok::<Arc<crate::subscriptions::Subscription>, GetSubscriptionError>(s) && resp.m.name@ == display_sub(s.name) && (dur_ns(info.ack_deadline) / 1_000_000_000 <= i32::MAX ==> resp.m.ack_deadline_seconds == dur_ns(info.ack_deadline) / 1_000_000_000) && (match info.push_config { None => resp.m.push_config.is_none(), Some(c) => resp.m.push_config.is_some() && resource_push_ok(c, resp.m.push_config.unwrap()) }), Err(_) => true })
+//@ closure 1 ret st: Status
+//@ closure 1 ensures (match $1 { GetSubscriptionError::DoesNotExist => st.code == Code::NotFound, GetSubscriptionError::Closed => st.code == Code::FailedPrecondition })
+//@ closure 2 ret st: Status
+//@ closure 2 ensures st.code == Code::FailedPrecondition
+//@end
+
+//@fn src/api/subscriber.rs SubscriberService::delete_subscription tags=C10 keep-paths=1
+//@ ret r
+//@ ensures[C17] parsed_sub(request.m.subscription@).is_none() ==> err_code(r) == Some(Code::InvalidArgument)
+//@ ensures[C10] (match parsed_sub(request.m.subscription@) { Some(n) => (self.subscription_manager.lookup(n) matches Err(GetSubscriptionError::DoesNotExist)) ==> err_code(r) == Some(Code::NotFound), None => true })
+//@ # C11: OK means the subscription the name denotes was asked to delete itself and answered OK
+//@ ensures[C11] r.is_ok() ==> exists|s: Arc<crate::subscriptions::Subscription>| #[trigger] sub_deleted(*s) && self.subscription_manager.lookup(parsed_sub(request.m.subscription@).unwrap()) == Ok::<Arc<crate::subscriptions::Subscription>, GetSubscriptionError>(s)
+//@ closure 1 ret st: Status
+//@ closure 1 ensures st.code == Code::FailedPrecondition
+//@end
+    }
 }
 
 // ======================================================================================
@@ -302,7 +378,24 @@ pub mod publisher {
 //@ ensures[C10] e is AlreadyExists ==> r.code == Code::AlreadyExists
 //@ ensures[C10] e is Closed ==> r.code == Code::FailedPrecondition
 //@end
+    pub mod parser {
+        use super::super::*;
+        #[verifier::external_body]
+        pub fn parse_topic_name(raw_value: &str) -> (r: Result<TopicName, Status>)
+            ensures (match parsed_topic(raw_value@) { Some(n) => r == Ok::<TopicName, Status>(n), None => err_code(r) == Some(Code::InvalidArgument) })
+        { unimplemented!() }
+    }
     impl PublisherService {
+//@fn src/api/publisher.rs PublisherService::delete_topic tags=C10 keep-paths=1
+//@ ret r
+//@ # C17 / C10: a name that does not parse is INVALID_ARGUMENT, an absent topic NOT_FOUND
+//@ ensures[C17] parsed_topic(request.m.topic@).is_none() ==> err_code(r) == Some(Code::InvalidArgument)
+//@ ensures[C10] (match parsed_topic(request.m.topic@) { Some(n) => (self.topic_manager.lookup(n) matches Err(GetTopicError::DoesNotExist)) ==> err_code(r) == Some(Code::NotFound), None => true })
+//@ # C11: OK means the topic the name denotes was asked to delete itself and answered OK
+//@ ensures[C11] r.is_ok() ==> exists|t: Arc<crate::topics::Topic>| #[trigger] topic_deleted(*t) && self.topic_manager.lookup(parsed_topic(request.m.topic@).unwrap()) == Ok::<Arc<crate::topics::Topic>, GetTopicError>(t)
+//@ closure 1 ret st: Status
+//@ closure 1 ensures st.code == Code::FailedPrecondition
+//@end
 //@fn src/api/publisher.rs PublisherService::get_topic_internal tags=C10 keep-paths=1
 //@ ret r
 //@ # C10: an absent topic name is NOT_FOUND
